@@ -11,7 +11,7 @@ VERIF = os.path.dirname(os.path.dirname(os.path.abspath(__file__)))
 OUT = os.environ.get("VERIF_OUT", VERIF)
 
 
-NATIVE_BUDGET = [1]
+NATIVE_BUDGET = [2]
 
 
 def extract_playback(out):
@@ -53,9 +53,33 @@ def make_replay(pid, h, r, failed_checks, target_dir, scratch, extract=True):
             pass
         rep["counterexample"] = {"scenario": h.bound, "generated_harness": src,
                                  "rerun": "./check %s --only %s" % (pid, h.name)}
+        found = True
+        # native replay: the same scenario through the public API only, real panics, plain `cargo test`
+        try:
+            import l2gen
+            import l2native
+            inst = None
+            for t in ("quick", "thorough"):
+                for i in l2gen.generate(pid, t, 0):
+                    if i.name() == h.name:
+                        inst = i
+                        break
+                if inst:
+                    break
+            if inst is None:
+                rep["native_replay"] = {"ran": False, "why": "instance not found in the generator"}
+            elif NATIVE_BUDGET[0] <= 0 or os.environ.get("VERIF_NO_NATIVE"):
+                rep["native_replay"] = {"ran": False, "why": "native replay budget used / disabled"}
+            else:
+                NATIVE_BUDGET[0] -= 1
+                rep["native_replay"] = l2native.run(inst, kanirun.REPO, r["fs"])
+                if rep["native_replay"].get("ran") and rep["native_replay"].get("reproduced") is False:
+                    found = False   # the verifier's scenario did not misbehave natively: reported, but flagged
+        except Exception as e:
+            rep["native_replay"] = {"ran": False, "why": "native replay error: %r" % (e,)}
         with open(path, "w") as f:
             json.dump(rep, f, indent=1)
-        return path, True
+        return path, found
     try:
         if not extract or os.environ.get("VERIF_NO_REPLAY"):
             raise RuntimeError("counterexample extraction skipped (budget)")
